@@ -28,7 +28,9 @@ Suppressions:
 
 import ast
 import os
+import re
 from collections.abc import Callable
+from functools import lru_cache
 from pathlib import Path
 from typing import Any, Protocol, TypeVar
 
@@ -322,6 +324,12 @@ def project_relative_path(context: BaseLintContext) -> str:
 def is_ignored_path(file_path: str, ignore_patterns: list[str]) -> bool:
     """Check if file path matches any ignore pattern.
 
+    Implements the documented pattern forms (docs/configuration.md, "Ignore Patterns"):
+    exact path, `*` within a name, `**/name`, `dir/**`, `**/dir/**`, `{a,b}` alternatives and
+    plain substrings.
+    A glob matches the path or any trailing part of it that starts at a directory
+    boundary, so `tests/**` also covers `backend/tests/test_bar.py`.
+
     Args:
         file_path: Path to check
         ignore_patterns: List of patterns to match against
@@ -329,7 +337,47 @@ def is_ignored_path(file_path: str, ignore_patterns: list[str]) -> bool:
     Returns:
         True if the path should be ignored
     """
-    return any(ignored in file_path for ignored in ignore_patterns)
+    path = str(file_path).replace(os.sep, "/")
+    return any(_matches_ignore_pattern(path, str(pattern)) for pattern in ignore_patterns)
+
+
+def _matches_ignore_pattern(path: str, pattern: str) -> bool:
+    """Match one documented ignore pattern (substring, or glob where `**` spans directories)."""
+    if pattern in path:
+        return True
+    if not any(char in pattern for char in "*?[{"):
+        return False
+    regex = _ignore_pattern_regex(pattern)
+    parts = path.split("/")
+    return any(regex.fullmatch("/".join(parts[start:])) for start in range(len(parts)))
+
+
+@lru_cache(maxsize=512)
+def _ignore_pattern_regex(pattern: str) -> re.Pattern[str]:
+    """Translate a glob to a regex: `*` and `?` stay inside a name, `**` crosses directories."""
+    out, i = "", 0
+    while i < len(pattern):
+        if pattern.startswith("**/", i):
+            out, i = out + "(?:[^/]+/)*", i + 3
+        elif pattern.startswith("**", i):
+            out, i = out + ".*", i + 2
+        elif pattern[i] == "*":
+            out, i = out + "[^/]*", i + 1
+        elif pattern[i] == "?":
+            out, i = out + "[^/]", i + 1
+        elif pattern[i] == "[" and "]" in pattern[i + 2 :]:
+            end = pattern.index("]", i + 2)
+            body = pattern[i + 1 : end]
+            negated = body.startswith("!")
+            out += "[" + ("^" if negated else "") + re.escape(body[negated:]).replace("\\-", "-") + "]"
+            i = end + 1
+        elif pattern[i] == "{" and "," in pattern[i:].split("}")[0] and "}" in pattern[i:]:
+            end = pattern.index("}", i)
+            out += "(?:" + "|".join(re.escape(alt) for alt in pattern[i + 1 : end].split(",")) + ")"
+            i = end + 1
+        else:
+            out, i = out + re.escape(pattern[i]), i + 1
+    return re.compile(out)
 
 
 def get_line_context(code: str, line_index: int) -> str:
